@@ -20,6 +20,12 @@ def na(pid, reason):
     NOT_APPLICABLE[pid] = reason
 
 
+def more(pid, technique, decided, not_decided=None):
+    """rules added after the first version of a claim"""
+    t, d, n = CLAIMS[pid]
+    CLAIMS[pid] = (t + '; ' + technique, d + '; ' + decided, not_decided if not_decided is not None else n)
+
+
 exec(open(os.path.join(HERE, 'claims.py')).read())
 
 props = [json.loads(l)['id'] for l in open(os.path.join(VERIF, 'properties.jsonl'))]
